@@ -91,10 +91,22 @@ Definition hold_ok (i o : list bytes) : bool :=
   && C10_hold_ok (len (get i 1)) (getZ i 2) (len (get i 3))
                  (getZ o 0) (getZ o 1) (getZ o 2) (getZ o 3) (getZ o 4) (getZ o 5) (getZ o 6).
 
-(* what the harness sent is what arrived: the burst lines have the requested lengths *)
+(* what the harness sent is what arrived: the burst lines have the requested lengths.  Flag "c"
+   (the client is closed 300 ms after the last line was submitted, while flood protection
+   still holds lines back): what arrived is a PREFIX of what was submitted — Close drops the
+   rest, it must not push it out. *)
+Fixpoint zlist_prefixb (a b : list Z) : bool :=
+  match a, b with
+  | [], _ => true
+  | x :: a', y :: b' => (x =? y) && zlist_prefixb a' b'
+  | _ :: _, [] => false
+  end.
+Definition k_closeflag : bytes := [99%N].
 Definition burst_faithful (i o : list bytes) : bool :=
-  zlist_eqb (map fst (pairs (skipn 2 i)))
-            (map (fun x => fst (fst x)) (skipn (get_nat o 0) (triples (skipn 1 o)))).
+  let requested := map fst (pairs (skipn 2 i)) in
+  let arrived := map (fun x => fst (fst x)) (skipn (get_nat o 0) (triples (skipn 1 o))) in
+  if beq (get i 1) k_closeflag then zlist_prefixb arrived requested
+  else zlist_eqb requested arrived.
 
 (* the model's prediction for display: the rule evaluated at the lower end of the elapsed
    interval (elapsed = gap, both clock readings = t0); nothing can be predicted for a burst *)
